@@ -111,3 +111,19 @@ int hxw_gettimeofday(struct timeval *tv, void *tz) {
     tv->tv_usec = (suseconds_t) (hxa_vclock % 1000000);
     return 0;
 }
+
+/* descriptor accounting: the library's mkstemp()/close() (multipart file extraction) are renamed to these.  A close of a
+ * descriptor the library does not hold is not performed (it would hit whoever owns that number now) and is counted. */
+#include <unistd.h>
+__thread int hxa_bad_close = 0, hxa_fds_open = 0;
+static unsigned char hxa_fd_owned[4096];      /* shared by threads on purpose: descriptor numbers are process-wide */
+int hxw_mkstemp(char *tmpl) {
+    int fd = mkstemp(tmpl);
+    if (fd >= 0 && fd < (int) sizeof hxa_fd_owned) { __atomic_store_n(&hxa_fd_owned[fd], 1, __ATOMIC_RELAXED); hxa_fds_open++; }
+    return fd;
+}
+int hxw_close(int fd) {
+    if (fd >= 0 && fd < (int) sizeof hxa_fd_owned && __atomic_exchange_n(&hxa_fd_owned[fd], 0, __ATOMIC_RELAXED)) { hxa_fds_open--; return close(fd); }
+    hxa_bad_close++;
+    return -1;
+}
